@@ -52,7 +52,7 @@ CHECKS = {
             "deterministic simulation with fault injection: seeded histories and schedules against a reference pool model"),
     "C11": ("W4-master",
             "seeded exploration, two-sided: heartbeat patterns (boundary gaps, hang, hang at boot, SIGSTOP, ignore SIGABRT) x timeout values x wall-clock steps against the real murder_workers/kill/reap/respawn; no kill while silence <= timeout, ABRT/KILL/replace within bounded simulated time otherwise",
-            "master side with stub workers implementing the heartbeat contract; worker side with the real sync/gthread/gevent(shim) loops: maximum notify() gap vs timeout; eventlet loop not covered",
+            "master side with stub workers implementing the heartbeat contract; worker side with the real sync/gthread/gevent/eventlet loops (gevent and eventlet on shims of the primitives they use): maximum notify() gap vs timeout, also while a retired worker drains",
             "deterministic simulation with fault injection on virtual time (timeout scan vs heartbeat patterns)"),
     "C13": ("W3-worker",
             "seeded exploration of schedules x histories: the real ThreadWorker.run() and handler threads as baton-scheduled simulated threads over a simulated selector/executor/lock, scripted clients, TERM; invariants on every kernel event, bounded liveness outside faults in two keyed regimes",
@@ -63,23 +63,23 @@ CHECKS = {
             "operations of different instances are atomic w.r.t. each other (the property's own quantifier); rename(2) atomic; pid liveness = kill(pid, 0)",
             "deterministic simulation with exhaustive crash-point enumeration on a simulated file system"),
     "C04": ("W4-master",
-            "seeded exploration in three families: the real sync/gthread worker process with clients driven into each connection phase and TERM/QUIT/INT at a seeded time or system-call index (W3); the real Arbiter with stub workers that obey/overrun/ignore (W4); the real Arbiter with the real workers and clients end to end",
-            "the real GeventWorker.run() executes on a shim of the gevent primitives it uses (simkit/gevent_shim.py); the eventlet run() loop is NOT executed; slack constants are listed in evidence.assumptions",
+            "seeded exploration in three families: the real sync/gthread/gevent/eventlet worker process with clients driven into each connection phase and TERM/QUIT/INT at a seeded time or system-call index (W3); the real Arbiter with stub workers that obey/overrun/ignore (W4); the real Arbiter with the real workers and clients end to end",
+            "the real GeventWorker.run() and EventletWorker.run()/_eventlet_serve execute on shims of the gevent / eventlet primitives they use (simkit/gevent_shim.py, simkit/eventlet_shim.py); the libraries' own hub scheduling is not modelled; slack constants are listed in evidence.assumptions",
             "deterministic simulation with signal injection at seeded delivery points; bounded-liveness and end-state oracles"),
     "C10": ("W4-master",
             "seeded exploration of HUP timings against a continuous client stream; kernel-level oracle on the identity and openness of the listening open-file-description, connect() refusals, pool age/size/configuration after the last reload, and per-request completion; stub and real-worker families",
-            "bind unchanged; gevent via shim, eventlet loop not covered; gthread/gevent connections accepted but never read are outside the statement (counted as a probe)",
+            "bind unchanged; gevent and eventlet via shims; gthread/async connections accepted but never read are outside the statement (counted as a probe)",
             "deterministic simulation of reload histories with kernel-level observation of descriptors"),
     "C14": ("W4-master",
             "seeded exploration of orderings of USR2 / TERM / QUIT / WINCH / HUP / kill of either master under client load, TCP and unix binds; the exec'd binary is the same real Arbiter started from the environment the real reexec() built",
             "execvpe model: non-CLOEXEC descriptors survive, environment replaced; systemd socket activation not in these histories",
             "deterministic simulation of two-master histories (fork+exec on the simulated kernel) with event-level invariants"),
     "C18": ("W3-worker",
-            "seeded exploration of max_requests/jitter x sequential and concurrent client load against the real sync/gthread workers (W3) and against the real Arbiter + real workers (W4): counting rule, no accept after the limit, in-flight requests answered, replacement, no refusal",
-            "keep-alive reuse races are not counted as drops; gevent via shim, eventlet loop not covered; the counting rule itself is also checked on the real handle() of all three families (W2)",
+            "seeded exploration of max_requests/jitter x sequential and concurrent client load against the real sync/gthread/gevent/eventlet workers (W3) and against the real Arbiter + real workers (W4): counting rule, no accept after the limit, in-flight requests answered, replacement, no refusal",
+            "keep-alive reuse races are not counted as drops; gevent and eventlet via shims; the counting rule itself is also checked on the real handle() of all three families (W2)",
             "deterministic simulation with seeded scheduling; oracle over the recorded connection history"),
     "C20": ("W4-master",
-            "seeded exploration of user/group spellings x initgroups x histories creating worker generations (kill, HUP, USR2, TTIN) with EPERM injected into privilege calls; credentials sampled from the simulated kernel at the first instruction of application loading in every worker",
+            "seeded exploration of user/group spellings x initgroups x histories creating worker generations (kill, HUP, USR2, TTIN) with EPERM injected into privilege calls; credentials sampled from the simulated kernel at the first instruction of application loading in every worker and, in a third of the runs, at every application call of a real sync/gthread/gevent/eventlet worker serving clients",
             "POSIX credential rules as implemented by the simulated kernel; names resolved against the sandbox's passwd/group files",
             "deterministic simulation with syscall fault injection; kernel-state oracle at application load"),
 }
